@@ -15,6 +15,13 @@ LOOP_TEMPLATES = [
     ('foreach', '_c = 0; _a = []; _a resize %d; { _c = _c + 1; 5; [6] } forEach _a; diag_log str [1, _c]'),
     ('count', '_a = []; _a resize %d; _c = { 7; [8]; true } count _a; diag_log str [1, _c]'),
     ('apply', '_a = []; _a resize %d; _c = count (_a apply { 7; [8]; 9 }); diag_log str [1, _c]'),
+    ('foreach-1stmt', '_a = []; _a resize %d; { [_forEachIndex] } forEach _a; diag_log str [1, count _a]'),
+    ('for-1stmt', 'for "_j" from 1 to %d do { [_j, 1] }; diag_log str [1, %d]'),
+    ('while-1stmt', '_i = 0; while { _i = _i + 1; _i <= %d } do { [_i] }; diag_log str [1, _i - 1]'),
+    ('count-1stmt', '_a = []; _a resize %d; _c = { true } count _a; diag_log str [1, _c]'),
+    ('select-1stmt', '_a = []; _a resize %d; _c = count (_a select { true }); diag_log str [1, _c]'),
+    ('apply-1stmt', '_a = []; _a resize %d; _c = count (_a apply { [1] }); diag_log str [1, _c]'),
+    ('findif-1stmt', '_a = []; _a resize %d; _c = _a findIf { false }; diag_log str [1, _c + 1 + %d]'),
     ('call-in-loop', '_c = 0; for "_j" from 1 to %d do { _c = _c + (call { 1; 2; 1 }) }; diag_log str [1, _c]'),
     ('exitwith-in-loop', '_c = 0; for "_j" from 1 to %d do { _c = _c + ([0, call { if (true) exitWith { 1 }; 5 }, 0] select 1) }; diag_log str [1, _c]'),
     ('try-in-loop', '_c = 0; for "_j" from 1 to %d do { _c = _c + ([0, try { throw 1 } catch { _exception }] select 1) }; diag_log str [1, _c]'),
@@ -48,15 +55,15 @@ def judge(chk, prog, src, r, label, feats):
 
 
 def loops(chk, runner, tier):
-    n = 10000
+    n = 3000 if tier == 'quick' else 10000
     cases = []
     for name, tpl in LOOP_TEMPLATES:
-        cases.append({'steps': [{'op': 'vm', 'vm': 0, 'mon': {'stack': True}, 'loop_max': 0}, {'op': 'run', 'vm': 0, 'src': tpl % n, 'mon': True}], 'cpu_ms': 120000})
+        cases.append({'steps': [{'op': 'vm', 'vm': 0, 'mon': {'stack': True}, 'loop_max': 0}, {'op': 'run', 'vm': 0, 'src': (tpl.replace('%d', str(n))), 'mon': True}], 'cpu_ms': 120000})
     res = runner.run(cases)
     for (name, tpl), r in zip(LOOP_TEMPLATES, res):
         chk.evaluations += 1
         chk.sig('loop:' + name)
-        src = tpl % n
+        src = (tpl.replace('%d', str(n)))
         if isinstance(r, core.Death):
             chk.death_is_violation(r, 'long loop %s' % name, {'src': src})
             continue
